@@ -68,14 +68,26 @@ class Record:
 
 
 class FnSig:
-    def __init__(self, name, params, ptypes, ret, has_iter):
+    def __init__(self, name, params, ptypes, ret, has_iter, procedure=False):
         self.name, self.params, self.ptypes, self.ret, self.has_iter = name, params, ptypes, ret, has_iter
+        self.procedure = procedure      # returns None; its effect is the final state of its BitView parameter
+
+
+class External:
+    """A function translated elsewhere (another Gen module) that the translated code may call by its imported name:
+    `lean` = qualified Lean name, `from_module` = last component of the module it must be imported from
+    (checked against the `from … import …` statements of the source), `ptypes`/`ret` = its signature."""
+
+    def __init__(self, lean, from_module, ptypes, ret, lean_import):
+        self.lean, self.from_module, self.ptypes, self.ret, self.lean_import = lean, from_module, list(ptypes), ret, lean_import
 
 
 class Module:
-    def __init__(self, text, filename, functions, records=None):
+    def __init__(self, text, filename, functions, records=None, externals=None):
         self.filename = filename
         self.records = records or {}
+        self.externals = externals or {}
+        self.used_externals = []
         try:
             self.tree = ast.parse(text, filename)
         except SyntaxError as e:
@@ -85,10 +97,17 @@ class Module:
             if isinstance(node, ast.FunctionDef):
                 self.defs[node.name] = node
             elif isinstance(node, ast.ClassDef):
+                # staticmethods, and ordinary methods (first parameter `self`, see Fn); class decorators and base
+                # classes do not change the text of a method body
                 for sub in node.body:
-                    if isinstance(sub, ast.FunctionDef) and any(
-                            isinstance(d, ast.Name) and d.id == "staticmethod" for d in sub.decorator_list):
+                    if isinstance(sub, ast.FunctionDef):
                         self.defs[f"{node.name}.{sub.name}"] = sub
+        # names imported with `from <module> import <name>`: name -> last component of <module>
+        self.imported = {}
+        for node in self.tree.body:
+            if isinstance(node, ast.ImportFrom) and node.module:
+                for al in node.names:
+                    self.imported[al.asname or al.name] = (node.module.split(".")[-1], al.name)
         self.wanted = list(functions)
         for f in self.wanted:
             if f not in self.defs:
@@ -155,6 +174,8 @@ def names_assigned(nodes):
             elif isinstance(n, ast.Call) and isinstance(n.func, ast.Attribute) and n.func.attr == "append" \
                     and isinstance(n.func.value, ast.Name):
                 add(n.func.value.id)
+            if isinstance(n, ast.Subscript) and isinstance(n.ctx, ast.Store):
+                res.append("<subscript-store>")
     return res
 
 
@@ -187,18 +208,42 @@ class Fn:
         a = node.args
         if a.vararg or a.kwarg or a.kwonlyargs or a.defaults or a.kw_defaults or a.posonlyargs:
             self.fail(node, "parameter list with defaults / * / ** / keyword-only parameters")
+        static = False
         for d in node.decorator_list:
             if not (isinstance(d, ast.Name) and d.id == "staticmethod"):
                 self.fail(node, "decorated function")
+            static = True
         self.pyparams = [p.arg for p in a.args]
         self.records = {p: mod.records[(name, p)] for p in self.pyparams if (name, p) in mod.records}
+        if "." in name and not static:
+            # an ordinary method: `self` is a record of which only the declared attributes may be read (default: none)
+            if not self.pyparams or self.pyparams[0] != "self":
+                self.fail(node, "method whose first parameter is not `self`")
+            self.records.setdefault("self", Record([]))
+        self.views = {}                 # local name -> (bytearray parameter, length): `bv = BitView(data, 0, length)`
+        # a parameter that is the target of `p[a:b] = v` is a BitView handed in by the caller: it is translated as the
+        # underlying buffer plus its length (`p`, `p_len`), and the function is a PROCEDURE returning the final buffer
+        self.view_params = []
+        for n in ast.walk(node):
+            if isinstance(n, ast.Subscript) and isinstance(n.ctx, ast.Store) and isinstance(n.slice, ast.Slice) \
+                    and isinstance(n.value, ast.Name) and n.value.id in self.pyparams and n.value.id not in self.view_params:
+                self.view_params.append(n.value.id)
+        if len(self.view_params) > 1:
+            self.fail(node, "more than one BitView parameter")
+        for vp in self.view_params:
+            self.views[vp] = (vp, lname(vp + "_len"))
+        self.procedure = False
         self.types = {}
         for p in self.pyparams:
             if p not in self.records:
-                self.types[p] = "int"
+                self.types[p] = "list" if p in self.view_params else "int"
         self.first_seen = list(self.pyparams)
         self.infer_types()
-        self.ret = self.infer_ret()
+        if self.view_params and not any(isinstance(n, ast.Return) for n in ast.walk(node)):
+            self.procedure = True
+            self.ret = "list"
+        else:
+            self.ret = self.infer_ret()
 
     # ------------------------------------------------------------------ type inference
     def set_type(self, node, name, t):
@@ -211,7 +256,7 @@ class Fn:
                 self.first_seen.append(name)
             return True
         if old != t:
-            if name in self.pyparams and old == "int" and t == "iter":
+            if name in self.pyparams and old == "int" and t in ("iter", "list"):
                 self.types[name] = t
                 return True
             self.fail(node, f"variable {name} used with two types ({old}, {t})")
@@ -250,11 +295,68 @@ class Fn:
                     return "list"
                 if f in self.mod.sigs:
                     return self.mod.sigs[f].ret
+                if f in self.mod.externals:
+                    return self.mod.externals[f].ret
             if isinstance(e.func, ast.Attribute) and e.func.attr == "bit_length":
                 return "int"
         self.fail(e, f"expression {type(e).__name__}")
 
+    # -- bytearray parameters: `bv = BitView(data, 0, L)`, `bv[a:b] = v`, `data[i] = v`, `data[i] |= v`
+    def bitview_new(self, n):
+        """`x = BitView(<parameter>, 0, <int literal>)` -> (x, parameter, length) or None"""
+        if isinstance(n, ast.Assign) and len(n.targets) == 1 and isinstance(n.targets[0], ast.Name) \
+                and isinstance(n.value, ast.Call) and isinstance(n.value.func, ast.Name) and n.value.func.id == "BitView":
+            c = n.value
+            if self.mod.imported.get("BitView") != ("bitfun", "BitView"):
+                self.fail(n, "BitView that is not imported from ...utils.bitfun")
+            if c.keywords or len(c.args) != 3 or not isinstance(c.args[0], ast.Name) or c.args[0].id not in self.pyparams \
+                    or self.int_lit(c.args[1]) != 0 or self.int_lit(c.args[2]) is None or self.int_lit(c.args[2]) <= 0:
+                self.fail(n, "BitView(..) other than BitView(<parameter>, 0, <positive int literal>)")
+            return n.targets[0].id, c.args[0].id, self.int_lit(c.args[2])
+        return None
+
+    def view_store(self, n):
+        """`bv[a:b] = e` with int literals a, b on a BitView local -> (view name, a, b, e) or None"""
+        if isinstance(n, ast.Assign) and len(n.targets) == 1 and isinstance(n.targets[0], ast.Subscript):
+            t = n.targets[0]
+            if isinstance(t.value, ast.Name) and t.value.id in self.views and isinstance(t.slice, ast.Slice):
+                lo = None if t.slice.lower is None else self.int_lit(t.slice.lower)
+                hi = None if t.slice.upper is None else self.int_lit(t.slice.upper)
+                if t.slice.step is not None or lo is None or hi is None or lo < 0 or hi < 0:
+                    self.fail(n, "BitView slice whose bounds are not non-negative int literals")
+                return t.value.id, lo, hi, n.value
+        return None
+
+    def byte_store(self, n):
+        """`data[i] = e` / `data[i] |= e` with an int literal i on a bytearray parameter -> (data, i, op, e) or None"""
+        if isinstance(n, ast.Assign) and len(n.targets) == 1:
+            t, op, val = n.targets[0], "set", n.value
+        elif isinstance(n, ast.AugAssign) and isinstance(n.op, ast.BitOr):
+            t, op, val = n.target, "or", n.value
+        else:
+            return None
+        if isinstance(t, ast.Subscript) and isinstance(t.value, ast.Name) and t.value.id in self.pyparams \
+                and self.types.get(t.value.id) == "list" and not isinstance(t.slice, ast.Slice):
+            i = self.int_lit(t.slice)
+            if i is None or i < 0:
+                self.fail(n, "byte index that is not a non-negative int literal")
+            return t.value.id, i, op, val
+        return None
+
     def infer_types(self):
+        for n in ast.walk(self.node):
+            v = self.bitview_new(n)
+            if v:
+                x, data, length = v
+                if x in self.views or x in self.types:
+                    self.fail(n, f"BitView local {x} bound twice / also used as a value")
+                self.views[x] = (data, length)
+                self.set_type(n, data, "list")
+        # a parameter indexed with an int literal is a bytearray
+        for n in ast.walk(self.node):
+            if isinstance(n, ast.Subscript) and isinstance(n.value, ast.Name) and n.value.id in self.pyparams \
+                    and isinstance(n.ctx, ast.Store) and not isinstance(n.slice, ast.Slice) and n.value.id not in self.records:
+                self.set_type(n, n.value.id, "list")
         changed = True
         rounds = 0
         while changed:
@@ -264,12 +366,16 @@ class Fn:
                 self.fail(self.node, "type inference does not converge")
             for n in ast.walk(self.node):
                 if isinstance(n, ast.Assign):
+                    if self.bitview_new(n) or self.view_store(n) or self.byte_store(n):
+                        continue
                     if len(n.targets) != 1 or not isinstance(n.targets[0], ast.Name):
                         self.fail(n, "assignment target other than a single local name")
                     t = self.etype(n.value)
                     if t is not None:
                         changed |= self.set_type(n, n.targets[0].id, t)
                 elif isinstance(n, ast.AugAssign):
+                    if self.byte_store(n):
+                        continue
                     if not isinstance(n.target, ast.Name):
                         self.fail(n, "augmented assignment to something other than a local name")
                     changed |= self.set_type(n, n.target.id, "int")
@@ -283,7 +389,7 @@ class Fn:
                     changed |= self.set_type(n, n.args[0].id, "iter")
         for n in ast.walk(self.node):
             if isinstance(n, ast.Name) and n.id not in self.types and n.id not in self.records \
-                    and isinstance(n.ctx, ast.Store):
+                    and n.id not in self.views and isinstance(n.ctx, ast.Store):
                 self.fail(n, f"cannot type variable {n.id}")
 
     def infer_ret(self):
@@ -317,6 +423,8 @@ class Fn:
                     res.append((lname(f"{p}_{a}".replace("is:", "is_")), "Int"))
             else:
                 res.append((lname(p), LEAN_TYPE[self.types[p]]))
+                if p in self.view_params:
+                    res.append((lname(p + "_len"), "Nat"))
         return res
 
     def iter_params(self):
@@ -509,6 +617,8 @@ class Fn:
             sig = self.mod.sigs[f]
             if sig.has_iter:
                 self.fail(e, f"call of {f}, which consumes an iterator")
+            if sig.procedure:
+                self.fail(e, f"value of {f}(..), which returns None")
             if len(e.args) != len(sig.params):
                 self.fail(e, f"call of {f} with {len(e.args)} arguments")
             pre, args = [], []
@@ -527,6 +637,21 @@ class Fn:
                 args.append(t)
             v = self.fresh()
             return pre + [(v, f"{lname(f)} fuel " + " ".join(args))], v, sig.ret
+        if f in self.mod.externals:
+            x = self.mod.externals[f]
+            if self.mod.imported.get(f) != (x.from_module, f.split(".")[-1]):
+                self.fail(e, f"call of {f}, which is not imported from a module named {x.from_module}")
+            if len(e.args) != len(x.ptypes):
+                self.fail(e, f"call of {f} with {len(e.args)} arguments")
+            pre, args = [], []
+            for a, pt in zip(e.args, x.ptypes):
+                p, t, _ = self.expr(a, defined, pt)
+                pre += p
+                args.append(t)
+            if x not in self.mod.used_externals:
+                self.mod.used_externals.append(x)
+            v = self.fresh()
+            return pre + [(v, f"{x.lean} fuel " + " ".join(args))], v, x.ret
         self.fail(e, f"call of {f}")
 
     # ------------------------------------------------------------------ conditions (Lean Prop, decidable)
@@ -559,9 +684,11 @@ class Fn:
                     if i > 0 and rp:
                         self.fail(right, "possibly-raising operand in a chained comparison")
                     pre += rp
-                    if step != 1:
-                        self.fail(right, "`in range` with a step")
+                    if step < 1:
+                        self.fail(right, "`in range` with a negative step")
                     c = f"({lo} ≤ {left} ∧ {left} < {hi})"
+                    if step != 1:
+                        c = f"({lo} ≤ {left} ∧ {left} < {hi} ∧ Int.fmod ({left} - {lo}) ({step} : Int) = 0)"
                     parts.append(c if isinstance(op, ast.In) else f"(¬ {c})")
                     if len(e.ops) > 1:
                         self.fail(e, "chained comparison with `in`")
@@ -636,7 +763,7 @@ class Fn:
                     x = v.value
                     if isinstance(x, ast.Name) and (x.id in self.types):
                         continue
-                    if isinstance(x, ast.Call) and isinstance(x.func, ast.Name) and x.func.id in ("type", "hex", "repr") \
+                    if isinstance(x, ast.Call) and isinstance(x.func, ast.Name) and x.func.id in ("type", "hex", "repr", "str") \
                             and len(x.args) == 1 and isinstance(x.args[0], ast.Name) and x.args[0].id in self.types:
                         continue
                 self.fail(e, "exception message with a computed part other than a local name")
@@ -644,6 +771,9 @@ class Fn:
         if isinstance(e, ast.BinOp) and isinstance(e.op, ast.Add):
             self.check_message(e.left)
             self.check_message(e.right)
+            return
+        if isinstance(e, ast.Call) and isinstance(e.func, ast.Name) and e.func.id in ("str", "hex", "repr") and not e.keywords \
+                and len(e.args) == 1 and isinstance(e.args[0], ast.Name) and e.args[0].id in self.types:
             return
         self.fail(e, "exception argument other than a message string")
 
@@ -657,6 +787,24 @@ class Fn:
             return self.block(rest, defined, ctx)            # docstring
         if isinstance(s, ast.Pass):
             return self.block(rest, defined, ctx)
+        if self.bitview_new(s):
+            return self.block(rest, defined, ctx)            # the view is an alias of the parameter; no code
+        vs = self.view_store(s)
+        if vs:
+            view, lo, hi, val = vs
+            data, length = self.views[view]
+            pre, term, _ = self.expr(val, defined, "int")
+            v = self.fresh()
+            return self.binds(pre + [(v, f"PyRt.bvSet {lname(data)} {length} {lo} {hi} {term}")],
+                              [f"let {lname(data)} : List Int := {v}"]) + self.block(rest, defined, ctx)
+        bs = self.byte_store(s)
+        if bs:
+            data, i, op, val = bs
+            pre, term, _ = self.expr(val, defined, "int")
+            v = self.fresh()
+            prim = "PyRt.setByte" if op == "set" else "PyRt.orByte"
+            return self.binds(pre + [(v, f"{prim} {lname(data)} {i} {term}")],
+                              [f"let {lname(data)} : List Int := {v}"]) + self.block(rest, defined, ctx)
         if isinstance(s, ast.Assign):
             x = s.targets[0].id
             if isinstance(s.value, ast.Call) and isinstance(s.value.func, ast.Name) and s.value.func.id == "next":
@@ -676,6 +824,28 @@ class Fn:
             load = ast.copy_location(ast.Name(id=x, ctx=ast.Load()), s)
             pre, term, _ = self.binop(s, s.op, load, s.value, defined)
             return self.binds(pre, [f"let {lname(x)} : Int := {term}"]) + self.block(rest, defined | {x}, ctx)
+        if isinstance(s, ast.Expr) and isinstance(s.value, ast.Call) and isinstance(s.value.func, ast.Name) \
+                and s.value.func.id in self.mod.sigs and self.mod.sigs[s.value.func.id].procedure:
+            c = s.value
+            sig = self.mod.sigs[c.func.id]
+            if c.keywords or len(c.args) != len(sig.params):
+                self.fail(s, f"call of {c.func.id} with a wrong argument list")
+            pre, args, target = [], [], None
+            for a, pt in zip(c.args, sig.ptypes):
+                if pt == "view":
+                    if not (isinstance(a, ast.Name) and a.id in self.views):
+                        self.fail(a, "BitView argument that is not a BitView local")
+                    target, length = self.views[a.id]
+                    args += [lname(target), str(length)]
+                elif pt == "record":
+                    self.fail(a, "record argument of a procedure")
+                else:
+                    p, t, _ = self.expr(a, defined, pt)
+                    pre += p
+                    args.append(t)
+            v = self.fresh()
+            return self.binds(pre + [(v, f"{lname(c.func.id)} fuel " + " ".join(args))],
+                              [f"let {lname(target)} : List Int := {v}"]) + self.block(rest, defined, ctx)
         if isinstance(s, ast.Expr):
             c = s.value
             if isinstance(c, ast.Call) and isinstance(c.func, ast.Attribute) and c.func.attr == "append" \
@@ -735,6 +905,8 @@ class Fn:
         name = f"{self.name}_loop{self.nloops}"
         inner = [s.test] if not is_for else []
         assigned = names_assigned(s.body)
+        if "<subscript-store>" in assigned:
+            self.fail(s, "store through a BitView / byte index inside a loop")
         if is_for:
             if not self.is_range(s.iter):
                 self.fail(s, "for-loop over something other than range(..)")
@@ -869,6 +1041,8 @@ class Fn:
         defined = set(self.pyparams)
 
         def off_end(d):
+            if self.procedure:
+                return [f".ok {lname(self.view_params[0])}"]
             self.fail(self.node, "function that can fall off its end (returns None)")
         top = Ctx(fallthrough=off_end, ret=lambda term: [f".ok {self.ret_term(term)}"])
         top.ret_raw = lambda rv: [f".ok {rv}"]
@@ -878,16 +1052,22 @@ class Fn:
         for d in self.loopdefs:
             out += d + [""]
         out += [f"def {self.name} {sig} : Except PyErr ({self.ret_lean_type()}) :="] + ind(body)
-        ptypes = ["record" if p in self.records else self.types[p] for p in self.pyparams]
-        self.mod.sigs[self.pyname] = FnSig(self.pyname, self.pyparams, ptypes, self.ret, bool(self.iter_params()))
+        ptypes = ["record" if p in self.records else ("view" if p in self.view_params else self.types[p])
+                  for p in self.pyparams]
+        self.mod.sigs[self.pyname] = FnSig(self.pyname, self.pyparams, ptypes, self.ret, bool(self.iter_params()),
+                                           self.procedure)
         return out
 
 
-def translate_source(text, filename, functions, lean_name, records=None):
-    mod = Module(text, filename, functions, records)
+def translate_source(text, filename, functions, lean_name, records=None, externals=None):
+    mod = Module(text, filename, functions, records, externals)
     body = mod.translate()
+    imports = []
+    for x in mod.used_externals:
+        if x.lean_import not in imports:
+            imports.append(x.lean_import)
     head = [
-        "import PpciVerif.Model.PyRt",
+        "import PpciVerif.Model.PyRt"] + [f"import {i}" for i in imports] + [
         "/-",
         f"GENERATED by translate/py2lean.py from {filename} -- do not edit.",
         "Functions: " + ", ".join(functions),
@@ -902,19 +1082,36 @@ def translate_source(text, filename, functions, lean_name, records=None):
     return "\n".join(head + body + [f"end Gen.{lean_name}", ""])
 
 
-def regen(repo, relpath, functions, lean_name, records=None):
+def write_if_changed(path, text):
+    """write `text` to `path` only when the content differs, atomically (temp file + rename), so that a
+    concurrent reader (another check building the same tree) never sees a half-written Gen file"""
+    import os
+    import tempfile
+    path = Path(path)
+    if path.exists() and path.read_text() == text:
+        return False
+    fd, tmp = tempfile.mkstemp(prefix="." + path.name + ".", suffix=".tmp", dir=str(path.parent))
+    with os.fdopen(fd, "w") as f:
+        f.write(text)
+    os.replace(tmp, path)
+    return True
+
+
+def regen_text(text, filename, functions, lean_name, records=None, externals=None):
+    """translate the given source text (`filename` is only used in messages and in the file header)"""
+    out = translate_source(text, filename, functions, lean_name, records, externals)
+    p = GEN / f"{lean_name}.lean"
+    return p, write_if_changed(p, out)
+
+
+def regen(repo, relpath, functions, lean_name, records=None, externals=None):
     """translate <repo>/<relpath>; write Gen/<lean_name>.lean only when the content changes"""
     src = Path(repo) / relpath
     try:
         text = src.read_text()
     except OSError:
         raise Untranslatable(f"untranslatable: source file missing at {relpath}:0")
-    out = translate_source(text, relpath, functions, lean_name, records)
-    p = GEN / f"{lean_name}.lean"
-    changed = (not p.exists()) or p.read_text() != out
-    if changed:
-        p.write_text(out)
-    return p, changed
+    return regen_text(text, relpath, functions, lean_name, records, externals)
 
 
 if __name__ == "__main__":
